@@ -60,6 +60,7 @@ def cases(draw, nums=("frac",), ops=None):
         s = F(3)
     M = draw(st.lists(st.lists(gen.small_fracs(-3, 3, (1, 2)), min_size=2, max_size=2), min_size=2, max_size=2))
     return {"op": op, "A": A, "B": B, "s": s, "M": M, "Mvec": draw(st.booleans()),
+            "twin_first": draw(st.integers(0, 2)) == 0,
             "other_interval": draw(st.integers(0, 9)) == 0}
 
 
@@ -164,6 +165,16 @@ def check(case, out):
         "muls": lambda x, y: t_scale(x, fs), "divs": lambda x, y: t_scale(x, 1 / fs),
         "rdiv": lambda x, y: (fs / x[0],), "rmatmul": lambda x, y: matvec(Mf, x), "matmuls": lambda x, y: vecmat(x, Mf),
     }[op]
+    if exact and binop and case.get("twin_first"):
+        # history: the same operator on float twins first (value-keyed caches must not leak floats)
+        out.cls("float-twin-first")
+        try:
+            Af, Bf = lib.build_curve(dict(case["A"], num="float")), lib.build_curve(dict(case["B"], num="float"))
+            {"add": lambda: Af + Bf, "sub": lambda: Af - Bf, "mul": lambda: Af * Bf, "matmul": lambda: Af @ Bf,
+             "div": lambda: Af / Bf}[op]()
+        except Exception as exc0:
+            if not lib.from_library(exc0):
+                raise
     R = fns[op]()
     if lib.snapshot(A) != snapA or (binop and lib.snapshot(B) != snapB):
         out.fail("operand-modified", klass, f"{op} changed an operand")
@@ -175,7 +186,10 @@ def check(case, out):
         out.fail("result-interval", klass, f"{op}: result on {r.limits}, operands on {a.limits}")
         return
     if exact:
-        bad = None  # exactness of types is C16's subject; values are compared exactly below
+        bad = lib.inexact_leaf([R.ctrlpoints, R.weights or []])
+        if bad is not None and case.get("twin_first"):
+            out.fail("float-leaked-into-exact-result", klass, f"{op} on Fraction data returned a {type(bad).__name__} ({bad!r}) after the same operator ran on float twins")
+            return
     m = r.p + a.p + (b.p if binop else 0) + 1
     bk = oracle.union_breaks(a.U, b.U if binop else a.U, r.U)
     scale = max([abs(c) for pt in (a.P + (b.P if binop else [])) for c in pt] + [F(1)])
